@@ -65,7 +65,10 @@ def driver_list(n_values, k, reduced=False):
     if reduced:
         sizes = [sizes[k % len(sizes)], sizes[(k + 2) % len(sizes)]]
     for j, bs in enumerate(sizes):
-        ds.append(("split", bs, "tuple", True, "alone"))
+        # every bufsize: between two fill chains that stop (LenaStopFill) before the flow ends
+        ds.append(("split", bs, "tuple", True, "afterstop"))
+        if (j + k) % 2 == 0:
+            ds.append(("split", bs, "tuple", True, "alone"))
         if (j + k) % 3 == 0:
             ds.append(("split", bs, "fcseq", False, "alone"))
     # the chain as one branch among others (a context-changing branch before it, an ordinary one after it)
@@ -192,16 +195,29 @@ def replay_adapter(ctx, mini, rec):
     if not res["ok"]:
         mini.fail(base + ":accepted", size, sig, {"caps": caps})
         return
+    log = flog if arg == "none" else el.log
     try:
         ret, sink = fl.probe_adapter(adapter, obj)
+        log1 = list(log)
     except Exception as exc:   # noqa
         mini.fail(base + ":probe-raised:" + exc_name(exc), size, sig, {"caps": caps, "bind": res, "exception": repr(exc)})
         return
-    log = flog if arg == "none" else el.log
-    for what, got, exp in (("calls", log, rec["log"]), ("returns", ret, rec["ret"]), ("fills", sink, rec["sink"])):
-        if got != fl.spec_tokens(exp):
-            mini.fail(base + ":" + what, size, sig, {"caps": caps, "bind": res, "expected": fl.spec_tokens(exp),
-                                                     "observed": got})
+    exp_log, exp_sink, exp_ret = fl.spec_tokens(rec["log"]), fl.spec_tokens(rec["sink"]), fl.spec_tokens(rec["ret"])
+    h, hs = len(exp_log) // 2, len(exp_sink) // 2       # the spec uses the adapter twice
+    for what, got, exp in (("calls", log1, exp_log[:h]), ("returns", ret, exp_ret), ("fills", sink, exp_sink[:hs])):
+        if got != exp:
+            mini.fail(base + ":" + what, size, sig, {"caps": caps, "bind": res, "expected": exp, "observed": got})
+            return
+    # the same adapter object used again
+    try:
+        ret2, sink2 = fl.probe_adapter(adapter, obj)
+    except Exception as exc:   # noqa
+        mini.fail(base + ":second-use-raised:" + exc_name(exc), size, sig, {"caps": caps, "bind": res, "exception": repr(exc)})
+        return
+    for what, got, exp in (("calls", list(log), exp_log), ("returns", ret2, exp_ret), ("fills", sink + sink2, exp_sink)):
+        if got != exp:
+            mini.fail(base + ":second-use:" + what, size, sig, {"caps": caps, "bind": res, "expected": exp, "observed": got})
+            return
 
 
 def plus1(v):
@@ -249,13 +265,23 @@ def real_kinds():
         def fill(self, v):
             pass
 
+    class WithCallAndRunAttr(WithCall):
+        run = "2023A"
+
+    class OnlyRunAttr(object):
+        run = "2023A"
+
     def gen():
         yield 1
         yield 2
     return [("function", lambda: pair1), ("builtin-abs", lambda: abs), ("builtin-len", lambda: len),
             ("type-int", lambda: int), ("callable-object", WithCall), ("custom-names", CustomNames),
             ("None", lambda: None), ("int", lambda: 5), ("str", lambda: "ab"), ("list", lambda: [1, 2]),
-            ("range", lambda: range(3)), ("iterator", lambda: iter([1, 2])), ("generator", gen), ("dict", lambda: {"a": 1}),
+            ("range", lambda: range(3)), ("tuple", lambda: (1, 2)),
+            ("Variable-with-run-attribute", lambda: lena.variables.Variable("x", plus1, run="2023A")),
+            ("Variable-with-fill-attribute", lambda: lena.variables.Variable("x", plus1, fill="2023A", compute=3)),
+            ("callable-with-run-attribute", WithCallAndRunAttr), ("Sum-with-run-attribute", fl.sum_with_run_attribute),
+            ("only-run-attribute", OnlyRunAttr), ("iterator", lambda: iter([1, 2])), ("generator", gen), ("dict", lambda: {"a": 1}),
             ("object", object),
             ("Sum", lena.math.Sum), ("Mean", lena.math.Mean), ("StoreFilled", lena.flow.StoreFilled),
             ("Count", lena.flow.Count), ("Slice", lambda: lena.flow.Slice(1)),
@@ -270,9 +296,8 @@ def real_kinds():
             ("End", lena.flow.End), ("Print", lambda: lena.flow.Print(transform=blank))]
 
 
-def direct(adapter, bind, res, make):
-    """What the documentation says the adapter does, performed directly on a fresh element."""
-    el = make()
+def direct(adapter, bind, res, el):
+    """What the documentation says the adapter does, performed directly on the element."""
 
     def meth(b):
         return getattr(el, b.split(":", 1)[1])
@@ -346,8 +371,11 @@ def record_real_kinds(ctx, mini, table):
                 bind = ""
                 if ok and res is not None and res["ok"]:
                     bind = (res["f"] + "+" + res["c"]) if adapter == "FillCompute" else res["bind"]
-                    exp = outcome(lambda: [materialise(direct(adapter, res["bind"], res, make))], lambda v: v)
-                    got = outcome(lambda: [materialise(via_adapter(adapter, obj))], lambda v: v)
+                    fresh = make()
+                    # both the adapter and the element are used twice
+                    exp = [outcome(lambda: [materialise(direct(adapter, res["bind"], res, fresh))], lambda v: v)
+                           for _ in (1, 2)]
+                    got = [outcome(lambda: [materialise(via_adapter(adapter, obj))], lambda v: v) for _ in (1, 2)]
                     if not (got == exp or repr(got) == repr(exp)):
                         mini.fail("real:%s:%s:meaning" % (adapter, arg), (kind,), kind,
                                   {"caps": caps, "bind": res, "expected": repr(exp), "observed": repr(got)})
@@ -360,18 +388,20 @@ def random_stage(rnd, alphabet):
     k = rnd.choice(alphabet)
     if k == "cfilter":
         return {"t": "cfilter", "k": rnd.choice(["odd", "variable", "t", "k", "output"]), "form": rnd.choice(["str", "fn"])}
+    if k == "varattr":
+        return {"t": "map", "f": "var", "attr": rnd.choice(["run", "fill", "compute", "request", "fill_into", "call"])}
     if k == "crunif":
         return {"t": "crunif", "k": rnd.choice(["odd", "variable", "t", "k"]), "f": rnd.choice(["inc", "dbl", "drop", "tag"])}
     return flowlib.random_stage(rnd, [k])
 
 
 def random_chain(rnd):
-    pre = [random_stage(rnd, ["map", "map", "filter", "slice", "slice", "runif", "cfilter", "cfilter", "crunif"])
+    pre = [random_stage(rnd, ["map", "map", "filter", "slice", "slice", "runif", "cfilter", "cfilter", "crunif", "varattr"])
            for _ in range(rnd.randint(0, 4))]
     pre = [st for st in pre if st.get("f") != "id"]
     post = [flowlib.random_stage(rnd, ["map", "filter", "slice", "count", "sum"]) for _ in range(rnd.randint(0, 2))]
     post = [st for st in post if st.get("f") != "id"]
-    return {"pre": pre, "acc": rnd.choice(["sum", "sum", "last", "store1", "cnt"]), "post": post}
+    return {"pre": pre, "acc": rnd.choice(["sum", "sum", "last", "store1", "cnt", "sumrun"]), "post": post}
 
 
 def record_random(ctx, mini, rnd, count):
@@ -381,7 +411,7 @@ def record_random(ctx, mini, rnd, count):
         n_values, pairs = rnd.randint(0, 12), rnd.choice(["bare", "pairs", "ctx", "ctx"])
         drv = rnd.choice(["run", "fill_compute_seq", "fill_seq", "split", "split", "split"])
         bs = rnd.choice(bufsizes(n_values)) if drv == "split" else NONE
-        place = rnd.choice(["alone", "first", "middle", "middle", "last"]) if drv == "split" else "alone"
+        place = rnd.choice(["alone", "first", "middle", "middle", "last", "afterstop", "afterstop"]) if drv == "split" else "alone"
         copy_buf = place != "alone" or rnd.random() < 0.7
         form = rnd.choice(["tuple", "fcseq"])
         out = outcome(lambda: fl.drive_chain(ch, n_values, pairs, drv, bs, copy_buf=copy_buf, form=form, place=place),
@@ -431,6 +461,11 @@ def run(ctx):
     if shared.violated is None:
         raise core.MachineryError("FillSeq.tla accepts a Split that shares one buffer copy between its branches")
     ctx.extra["shared_copy_variant_rejected_by"] = shared.violated
+    # ... and one whose LenaStopFill flag is kept for the later branches of the block
+    flag = ctx.mc("FillSeq", "FillSeq_sharedflag.cfg", expect_violation="report")
+    if flag.violated is None:
+        raise core.MachineryError("FillSeq.tla accepts a Split whose stop flag is shared by the branches of a block")
+    ctx.extra["shared_stop_flag_variant_rejected_by"] = flag.violated
     if ctx.thorough:
         ctx.mc("FillSeq", "FillSeq_wide.cfg")
         ctx.mc("FillSeq", "FillSeq_deep.cfg")       # three pre elements
